@@ -100,7 +100,16 @@ func idxOf(tab []string, s string) int {
 	return 900
 }
 
-func c16Case(c *Ctx, steps []c16Step) error {
+// c16Base: the addresses of an ordinary case; the table is extended (init below) for the cases with many holders
+const c16Base = 4
+
+func init() {
+	for i := 0; i < 460; i++ {
+		c16Addrs = append(c16Addrs, fmt.Sprintf("h%03d", i))
+	}
+}
+
+func c16Case(c *Ctx, steps []c16Step, nAddr int) error {
 	w := NewWorld()
 	if _, err := w.AddToken("TT", ChanOpts{}); err != nil {
 		return err
@@ -204,7 +213,7 @@ func c16Case(c *Ctx, steps []c16Step) error {
 			raw := w.Peer.newStub(ch, "q", nil, nil)
 			var items [][2]string
 			var addrs []string
-			for ai, a := range c16Addrs {
+			for ai, a := range c16Addrs[:nAddr] {
 				v, err := balance.Get(raw, c16Kinds[st.Key.K], a, c16Tokens[st.Key.T])
 				if err != nil {
 					return err
@@ -253,13 +262,13 @@ func c16Case(c *Ctx, steps []c16Step) error {
 
 func genC16(c *Ctx) error {
 	c.ShardSize = 40
-	c.Notes["rule"] = "histories of 10-30 steps over 3 balance kinds x 4 addresses x 4 tokens (names that are prefixes of each other, the empty token): transactions of 1-4 put/add/sub/move operations through the tx/batch caches or on a raw stub, committed or discarded; optional legacy primaries written without inverse entries; createIndex via Invoke; every owners listing is followed by direct balance.Get of every address. Non-trivial: at least one inverse entry exists at the end."
+	c.Notes["rule"] = "histories of 10-30 steps over 3 balance kinds x 4 addresses x 4 tokens (names that are prefixes of each other, the empty token): transactions of 1-4 put/add/sub/move operations through the tx/batch caches or on a raw stub, committed or discarded; optional legacy primaries written without inverse entries; createIndex via Invoke; every owners listing is followed by direct balance.Get of every address. Plus ledgers with 210-460 legacy holders of one kind (among the first ones also token-less balances), indexed and listed. Non-trivial: at least one inverse entry exists at the end."
 	rng := c.Rng
 	n := c.N(240, 6000)
 	for i := 0; i < n; i++ {
 		var steps []c16Step
 		key := func() c16Key {
-			return c16Key{rng.Intn(len(c16Kinds)), rng.Intn(len(c16Addrs)), rng.Intn(len(c16Tokens))}
+			return c16Key{rng.Intn(len(c16Kinds)), rng.Intn(c16Base), rng.Intn(len(c16Tokens))}
 		}
 		if rng.Intn(3) == 0 {
 			for k := 1 + rng.Intn(4); k > 0; k-- {
@@ -318,9 +327,39 @@ func genC16(c *Ctx) error {
 				steps = append(steps, c16Step{Kind: "byaddr", Key: key()})
 			}
 		}
-		if err := c16Case(c, steps); err != nil {
+		if err := c16Case(c, steps, c16Base); err != nil {
 			return err
 		}
+	}
+	// ledgers with many holders: 210-460 legacy primaries of one kind (tokens and, among the first ones, token-less
+	// balances), then createIndex, owners listings and direct reads; then ordinary traffic and another listing
+	for i := c.N(1, 8); i > 0; i-- {
+		kind := rng.Intn(len(c16Kinds))
+		nh := 210 + rng.Intn(251)
+		var steps []c16Step
+		for a := 0; a < nh; a++ {
+			tk := 1 + rng.Intn(2)
+			steps = append(steps, c16Step{Kind: "legacy", Key: c16Key{kind, c16Base + a, tk}, Amt: int64(1 + rng.Intn(90))})
+			if a < 40 && rng.Intn(6) == 0 {
+				steps = append(steps, c16Step{Kind: "legacy", Key: c16Key{kind, c16Base + a, 0}, Amt: int64(1 + rng.Intn(90))})
+			}
+		}
+		rng.Shuffle(len(steps), func(x, y int) { steps[x], steps[y] = steps[y], steps[x] })
+		steps = append(steps, c16Step{Kind: "createIndex", Key: c16Key{kind, 0, 0}})
+		for tk := 1; tk <= 2; tk++ {
+			k := c16Key{kind, 0, tk}
+			steps = append(steps, c16Step{Kind: "owners", Key: k}, c16Step{Kind: "gets", Key: k})
+		}
+		mv := c16Step{Kind: "tx", Mode: "cached", Commit: true}
+		for j := 0; j < 3; j++ {
+			a := c16Base + rng.Intn(nh)
+			mv.Ops = append(mv.Ops, c16Op{Op: "move", K1: c16Key{kind, a, 1}, K2: c16Key{kind, c16Base + rng.Intn(nh), 1}, Amt: int64(rng.Intn(5))})
+		}
+		steps = append(steps, mv, c16Step{Kind: "owners", Key: c16Key{kind, 0, 1}}, c16Step{Kind: "gets", Key: c16Key{kind, 0, 1}})
+		if err := c16Case(c, steps, c16Base+nh); err != nil {
+			return err
+		}
+		c.Count("ledger_with_many_holders")
 	}
 	return nil
 }
